@@ -197,6 +197,50 @@ pub fn run(o: &Opts) {
   if !results[0].is_empty() {
     out.nontrivial(&("file-order", results[0].len()));
   }
+  // E: several fixable rules (some with files/ignores globs) that want to rewrite the same node: the file written by
+  // `sg scan -U` must not depend on the order of the rule documents / rule files
+  {
+    let rule_docs = [
+      "id: to-let\nlanguage: TypeScript\nmessage: m\nfiles: ['src/**']\nrule:\n  pattern: var $A = $B\nfix: let $A = $B\n",
+      "id: to-const\nlanguage: TypeScript\nmessage: m\nfiles: ['src/**']\nrule:\n  pattern: var $A = $B\nfix: const $A = $B\n",
+      "id: plain-fix\nlanguage: TypeScript\nmessage: m\nrule:\n  pattern: var $A = $B\nfix: VAR($A, $B)\n",
+      "id: ignoring\nlanguage: TypeScript\nmessage: m\nignores: ['lib/**']\nrule:\n  pattern: foo($X)\nfix: qux($X)\n",
+    ];
+    let mut outcomes: Vec<(Vec<usize>, String, String)> = vec![];
+    // first without the glob-less competitor (it would always win), then with it
+    for (gi, orders) in [vec![vec![0usize, 1, 3], vec![1, 0, 3], vec![3, 1, 0]], vec![vec![0, 1, 2, 3], vec![1, 0, 3, 2], vec![3, 2, 1, 0], vec![2, 0, 3, 1]]].iter().enumerate() {
+    let base_idx = outcomes.len();
+    for (oi, ord) in orders.iter().enumerate() {
+      let oi = oi + gi * 10;
+      for one_file in [true, false] {
+        let p = proj.join(format!("e{oi}_{one_file}"));
+        std::fs::create_dir_all(p.join("rules")).unwrap();
+        std::fs::create_dir_all(p.join("src")).unwrap();
+        std::fs::write(p.join("sgconfig.yml"), "ruleDirs: [rules]\n").unwrap();
+        std::fs::write(p.join("src/a.ts"), "var x = 1\nfoo(2)\nvar y = foo(3)\n").unwrap();
+        if one_file {
+          std::fs::write(p.join("rules/all.yml"), ord.iter().map(|i| rule_docs[*i]).collect::<Vec<_>>().join("---\n")).unwrap();
+        } else {
+          for (k, i) in ord.iter().enumerate() {
+            std::fs::write(p.join(format!("rules/{k}-r.yml")), rule_docs[*i]).unwrap();
+          }
+        }
+        let j = sg(&p, &["scan", "--json=stream"], None, 60);
+        let mut recs: Vec<String> = json_lines(&j.stdout).unwrap_or_default().iter().map(|v| v.to_string()).collect();
+        recs.sort();
+        let _u = sg(&p, &["scan", "-U"], None, 60);
+        out.checked();
+        outcomes.push((ord.clone(), std::fs::read_to_string(p.join("src/a.ts")).unwrap_or_default(), recs.join("\n")));
+      }
+    }
+    out.count("layout:competing-fixes");
+    let first = outcomes[base_idx].clone();
+    if let Some(bad) = outcomes[base_idx..].iter().find(|x| x.1 != first.1 || x.2 != first.2) {
+      out.oracle_fail("", &format!("the same rules in document order {:?} vs {:?}: `sg scan -U` writes {:?} vs {:?} (findings identical: {})", first.0, bad.0, first.1, bad.1, first.2 == bad.2),
+        json!({"stream": "c13-fix-order", "rules": rule_docs}));
+    }
+    }
+  }
   // D: sg test --update-all, then sg test passes and a second update leaves the snapshots byte-identical
   {
     let p = proj.join("v0");
@@ -230,6 +274,6 @@ pub fn run(o: &Opts) {
   }
   out.finish("rule documents with inter-dependent utilities (chains through all/any/not/matches), transformation chains (substring -> replace -> convert -> substring), constraints that bind a shared new variable, \
               rewriters with joinBy: each loaded and run 16 (64) times in one process with the textual key order of utils / constraints / transform permuted (every load gives every HashMap a new seed) and 8 (32) times in fresh processes; \
-              accept/reject, findings, messages, meta-variable ranges, transformed values and fixes must be identical; the same rules in rule files named/ordered differently or collected in one file; \
+              four fixable rules competing for the same node (two with files globs, one with ignores) in 4 document orders x one-file/many-files: `sg scan -U` must write the same bytes; accept/reject, findings, messages, meta-variable ranges, transformed values and fixes must be identical; the same rules in rule files named/ordered differently or collected in one file; \
               `sg test -U` then `sg test` then `sg test -U` with byte-identical snapshot files. non-trivial = the rule has findings");
 }
